@@ -68,7 +68,7 @@ pub fn random_req(rng: &mut Pcg64Mcg, max_steps: u64) -> Req {
     } else {
         (kt_start, kt_finish, kt_ratio)
     };
-    let max_step = pick(rng, &[2e-6, 2e-5, 0.001, 0.01, 0.05, 0.5, 1.0]);
+    let max_step = pick(rng, &[2e-6, 2e-5, 0.001, 0.01, 0.05, 0.5, 1.0, 1.5, 1.9]);
     let convergence = pick(rng, &[None, None, Some(0.), Some(1e-3), Some(0.5), Some(10.), Some(-1.), Some(1e-18), Some(1e-300)]);
     Req {
         steps,
